@@ -81,6 +81,10 @@ CHECKS = {
    tech="TLA+ spec Totality.tla: scenario classes (file shape x text feature x query x options x entry point) and the call/return protocol with the loader's classification table; TLC enumerates the cross product; each scenario executed on the real loader and entry points under a deadline; TLC validates every recorded outcome",
    text="TLC enumerates all 78,400 combinations of file shape (missing, empty, scalar, map, list of scalars, wrong-typed fields, deep nesting, aliases, damaged, binary, huge, directory, valid...), text feature (NUL, invalid UTF-8, 1000-character fields, punctuation only, empty, Unicode), query class, option class (extreme limits/thresholds/caps, NaN/Inf/negative boosts, odd platform lists) and entry point (universal, legacy searches, cached, monitored, suggestions, recovery); a covering sample (all in thorough) is executed on the real code with panic recovery and a deadline and TLC checks that every load outcome is the one the classification allows and every call returned.",
    note="Classes, not bytes: the weakest fit of the family, as DESIGN section 6 says; one representative per class."),
+ "C17": dict(cat="model_checking", ref="DESIGN.md section 5, C17",
+   tech="TLA+ spec Cli.tla (parse/validate/load/search/recover/record/format/exit stages over scenario classes): TLC model check and scenario enumeration; scenarios executed by the real binary; TLC validates each recorded run (TraceCli.tla)",
+   text="TLC explores the stage pipeline of one CLI run for every combination of sub-command, argument shape, query class, --limit class, --format, verbosity, colour switch, platform flags and database class (194,832 scenarios), checking at the design level that every run ends, prints at most the limit in force and records exactly one history entry per accepted search; a pairwise cover plus a random sample of the scenarios is executed by the real binary in an isolated home and TLC checks each run: no crash; for accepted searches the printed commands equal the engine's answer in order (list, table, JSON), the JSON block parses with one object per result, the history gains exactly one newest entry for the cleaned query; rejected searches print nothing and record nothing; no escape sequence with --no-color / NO_COLOR.",
+   note="Sampled, not exhaustive, at the process level; oracle replays the documented option set in-process."),
 }
 NOT_APPLICABLE = {}
 
